@@ -629,6 +629,8 @@ def blocks(tier):
     # a file rate x expansion that is not whole (11025 Hz x 3/2 = 16537.5): the recording's samplerate is the int Recording.from_file
     # stores (16537), and every frame time / count follows THAT rate
     out.append({"space": "clip_odd_te", "tier": tier})
+    # a sample format whose values do not fit single precision (32-bit PCM)
+    out.append({"space": "pcm32", "tier": tier})
     out.append({"space": "rewrite", "tier": tier})
     out.append({"space": "relocate", "tier": tier})
     # one file of more than 2^20 frames read as a whole and as a clip reaching past its end
@@ -676,6 +678,9 @@ def cases_of(block):
         yield {"space": "recording", "rate": rate, "frames": frames, "ch": 1, "te": "1"}
         yield clip_case(rate, frames, 1, "1", F(1, 8), F(frames + 64, rate))
         yield clip_case(rate, frames, 1, "1", F(2 ** 20 - 8, rate), F(frames, rate))
+    elif sp == "pcm32":
+        for ch in (1, 2):
+            yield {"space": "pcm32", "rate": 8000, "frames": 64, "ch": ch, "clips": [[0, 64], [3, 17], [40, 80], [63, 64]]}
     elif sp == "clip_odd_te":
         rate, frames, te = 11025, 64, "3/2"
         sr = M.recording_rate(rate, TE[te])
@@ -712,8 +717,61 @@ def cases_of(block):
         raise ValueError(sp)
 
 
+def _pcm32_value(i, c):
+    """A 32-bit sample that needs more than 24 significant bits (not representable in single precision)."""
+    return ((i + 1) * 7919 * 65537 + c * 104729 + 12345) % (2 ** 31) - 2 ** 30 | 1
+
+
+def run_pcm32(case):
+    """A 32-bit PCM file: the frames of load_recording and of every load_clip are the file's samples / 2^31, exactly (doubles hold
+    32-bit integers exactly), and a clip's frames equal the same frames of the recording bit for bit."""
+    import struct
+    import wave
+    out = Out(case)
+    rate, n, ch = case["rate"], case["frames"], case["ch"]
+    path = os.path.join(_dir(), "pcm32_r%d_n%d_c%d.wav" % (rate, n, ch))
+    vals = [_pcm32_value(i, c) for i in range(n) for c in range(ch)]
+    with wave.open(path, "wb") as w:
+        w.setnchannels(ch)
+        w.setsampwidth(4)
+        w.setframerate(rate)
+        w.writeframes(struct.pack("<%di" % len(vals), *vals))
+    fn = "load_clip"
+    out.nontrivial = True
+    st, rec = call(data.Recording.from_file, path, compute_hash=False, uuid=U("c15:pcm32:%d:%d:%d" % (rate, n, ch)))
+    if st != "ok":
+        out.fail("no_crash_in_domain", describe(rec), "a Recording", exc_cls("Recording.from_file", rec, "crash"))
+        return out
+    st, full = call(audio.load_recording, rec)
+    out.transitions += 1
+    if st != "ok":
+        out.fail("no_crash_in_domain", describe(full), "an array", exc_cls("load_recording", full, "crash"))
+        return out
+    want = [[vals[i * ch + c] / 2.0 ** 31 for c in range(ch)] for i in range(n)]
+    got = np.asarray(full.transpose("time", "channel").data, dtype=float).tolist()
+    out.expect("frames_are_file_frames", got == want, {"first_differing": next((i for i, (a, b) in enumerate(zip(got, want)) if a != b), None)},
+               "the file's samples / 2^31", {"fn": "load_recording", "kind": "pcm32"})
+    for a, b in case["clips"]:
+        clip = data.Clip(recording=rec, start_time=a / rate, end_time=b / rate, uuid=U("c15:pcm32clip:%d:%d" % (a, b)))
+        st, arr = call(audio.load_clip, clip)
+        out.transitions += 1
+        if st != "ok":
+            out.fail("no_crash_in_domain", describe(arr), "an array", exc_cls(fn, arr, "crash"))
+            continue
+        g = np.asarray(arr.transpose("time", "channel").data, dtype=float).tolist()
+        e = [want[i] if i < n else [0.0] * ch for i in range(a, b)]
+        out.expect("clip_equals_recording", g == e, {"clip": [a, b], "first_differing": next((i for i, (x, y) in enumerate(zip(g, e)) if x != y), None),
+                                                      "frames": len(g)}, "the same frames as load_recording, bit for bit",
+                   {"fn": fn, "kind": "pcm32"})
+    out.validated = out.transitions
+    out.klass = "pcm32/ch%d" % ch
+    return out
+
+
 def run_case(case):
     sp = case["space"]
+    if sp == "pcm32":
+        return run_pcm32(case)
     if sp == "recording":
         return run_recording(case)
     if sp == "clip":
